@@ -44,7 +44,7 @@ import ast
 import re
 
 from translate_core import (TranslateError, FunTr, Val, src_of, parse, body_no_doc, coq_str, find_function, plain_params,
-                            forbid_dynamic, module_imports, assigned_names)
+                            forbid_dynamic, module_imports, assigned_names, builtins_unshadowed)
 
 SORT = "cij/misc/evec_sort.py"
 DISP = "cij/misc/evec_disp2eig.py"
@@ -58,6 +58,8 @@ def is_full_slice(n):
 
 
 class EvecTr(FunTr):
+    mutable_types = frozenset(["cmat", "rmat", "solist"])       # the types the grammar has in-place operations for
+
     def constant(self, e):
         if e.value is None:
             return Val("None", "none")
@@ -330,12 +332,9 @@ def translate_sort(source):
     tr.aliases = dict(aliases)
     tr.function_locals = frozenset(assigned_names(body))
     tr.protected = frozenset(["target_arr", "target_evecs", "base_evecs", "filter", "threshold"])
-    for nm in ("len", "set", "range"):
-        if nm in tr.function_locals or any(isinstance(n, ast.Name) and n.id == nm and isinstance(n.ctx, ast.Store) for n in ast.walk(mod)) \
-                or any(isinstance(n, (ast.FunctionDef, ast.ClassDef)) and n.name == nm for n in ast.walk(mod)):
-            raise TranslateError(SORT, fn, "builtin `%s` is rebound" % nm)
-    env = {"target_arr": Val("target_arr", "listA"), "target_evecs": Val("target_evecs", "cml"),
-           "base_evecs": Val("base_evecs", "cml"), "filter": Val("None", "none"), "threshold": Val("None", "none")}
+    builtins_unshadowed(mod, SORT, {"len", "set", "range"})
+    env = {"target_arr": Val("target_arr", "listA", "param"), "target_evecs": Val("target_evecs", "cml", "param"),
+           "base_evecs": Val("base_evecs", "cml", "param"), "filter": Val("None", "none"), "threshold": Val("None", "none")}
     term = tr.block(body, env, lambda e2: tr.bail(fn, "evec_sort can end without `return`"))
     txt = ("  (* %s: evec_sort(target_arr, target_evecs, base_evecs), specialised to filter=None, threshold=None.\n"
            "     None = RuntimeError / IndexError *)\n"
@@ -357,6 +356,7 @@ def translate_disp(source):
     if a.defaults or fn.decorator_list:
         raise TranslateError(DISP, fn, "evec_disp2eig has defaults / decorators")
     forbid_dynamic(fn, DISP)
+    builtins_unshadowed(mod, DISP, {"len"})
     body = body_no_doc(fn)
     out, facts, loops = [], [], []
     for dt, mt, name in (("r", "list (list F)", "real"), ("c", "list (list cplx)", "complex")):
@@ -364,7 +364,7 @@ def translate_disp(source):
         tr.aliases = dict(aliases)
         tr.function_locals = frozenset(assigned_names(body))
         tr.protected = frozenset(["mass"])
-        env = {"a": Val("a", dt + "mat"), "mass": Val("mass", "rvec")}
+        env = {"a": Val("a", dt + "mat", "param"), "mass": Val("mass", "rvec", "param")}
         term = tr.block(body, env, lambda e2: tr.bail(fn, "evec_disp2eig can end without `return`"))
         out.append("  (* %s: evec_disp2eig(a, mass) for a %s array a (rows = displacement vectors); None = RuntimeError *)\n"
                    "  Definition ge_disp2eig_%s (a : %s) (mass : list F) : option (%s) :=\n    %s.\n"
@@ -447,6 +447,7 @@ def regex_atoms(pattern, file, node):
 def translate_load(source):
     mod = parse(source)
     module_imports(mod, LOAD, {"re": ("import re", "re")})
+    builtins_unshadowed(mod, LOAD, {"float", "next", "range"})
     defs = []
     for name in ("Q_COORDS_REGEX", "MODE_INDEX_REGEX"):
         stores = [n for n in ast.walk(mod) if isinstance(n, ast.Name) and n.id == name and isinstance(n.ctx, (ast.Store, ast.Del))]
